@@ -112,10 +112,13 @@ LEVEL.update({
             'draws. Partial: the distribution of numpy draws is assumed (statistical tests reported as such).', '6 C15'),
     'C19': ('proof', 'Bookkeeping theorems for every input history (new/other disjoint, complete reported exactly once and never '
             'again, nothing dropped before reported, call iff arrival/result/poll due with the code\'s float clock, exact '
-            'poll-gap bounds), reply codec round trip, payload type without resource needs; 26 bridge obligations on key '
-            'lists, source text and Go struct tags; correspondence and monitors on loop-back HTTP runs compared with an '
-            'independent in-process replay of the same decisions. Partial: HTTP/JSON transport and the Go reference '
-            'scheduler (no toolchain) are outside the proof.', '6 C19'),
+            'poll-gap bounds), reply codec round trip, payload type without resource needs; transparency theorems over a '
+            'simulator loop generic in the scheduler: every request equals an independently defined observation of the true '
+            'state, the commands executed are exactly the decoded reply, and for every admissible stateful policy the '
+            'HTTP-driven run equals the in-process run (a policy naming an unregistered operator is a KeyError: witness); '
+            'bridge obligations on key lists, source text and Go struct tags; correspondence and monitors on loop-back HTTP '
+            'runs compared with an independent in-process replay. Partial: HTTP/JSON transport of the request and the Go '
+            'reference scheduler (no toolchain) are outside the proof.', '6 C19'),
 })
 
 NOTES = {
